@@ -85,7 +85,8 @@ class Report:
                                          'note': v['what'], 'line': v['lineno']})
         return {'obligations': self.obligations, 'functions': self.functions, 'assumptions': self.assumptions,
                 'bounded': self.bounded, 'inlined': sorted(E.inlined), 'contract_calls': sorted(E.contract_calls),
-                'paths': E.paths, 'dropped': E.dropped, 'notes': self.notes}
+                'paths': E.paths, 'dropped': E.dropped, 'notes': self.notes,
+                'renamed_locals': [[q, m] for q, m in getattr(E.repo, 'renamed_locals', [])]}
 
 
 def poly_counterexample(p):
